@@ -2,7 +2,7 @@
 effects on user values, exception transparency, scope hygiene, declaration order, target-shape totality, closure cells."""
 import ast
 
-from ..astq import parse_fixture
+from ..astq import parse_fixture, returns_of
 from ..core import AnalysisError, norm, walk_local
 from ..xform import query as Q
 from ..xform.terms import (ASDL, EVAL_ORDER, Copy, GenericVisit, Gensym, Ident, In, InList, Lib, Node, Opaque, Raise, Rec, Star, SymStr,
@@ -84,6 +84,7 @@ def run(repo, chk):
     chk.rule("R01.6", "declaration order: a synthesised prologue statement may mention a user name only if no global/nonlocal statement of the body can declare it", 2)
     chk.rule("R01.7", "target-shape totality: every grammar-legal target kind of every binding context ends in a template, not in NotImplementedError or in a node shape compile() rejects", 4)
     chk.rule("R01.9", "no local is mistaken for an external: every construct that binds a name in the function scope is known to the collector (recorded as assigned, or as the name of a nested definition), otherwise reading the name makes the prologue fetch it from the globals at entry and the call fails", 15)
+    chk.rule("R01.10", "an exception of the user's function is never swallowed by the machinery around it: no __exit__ of a ptera context manager returns a value (a truthy result would suppress the exception in flight)", 3)
     chk.rule("R01.8", "closure cells are shared, not copied: the function handed back is built over fn.__closure__, never over cell_contents", 1)
 
     cls, H, stats = Q.templates(repo, chk.tier)
@@ -357,6 +358,31 @@ def run(repo, chk):
     from .shared import dictpile_obligations
     dictpile_obligations(repo, chk, "R01.3")
 
+    # ------------------------------------------------------------------ R01.10
+    def returns_nothing(fi, seen=()):
+        """Every return of the function is bare / None / False, or hands on the result of a package function that returns nothing."""
+        from ..callgraph import CallGraph
+        for r in returns_of(fi.node):
+            v = r.value
+            if v is None or (isinstance(v, ast.Constant) and v.value in (None, False)):
+                continue
+            if isinstance(v, ast.Call):
+                cg_ = getattr(repo, "_cg_cache", None) or CallGraph(repo)
+                repo._cg_cache = cg_
+                callees = [c for call, cs, ext, how in cg_.edges[fi.qual] if call is v for c in cs]
+                if callees and all(c not in seen and returns_nothing(repo.functions[c], seen + (fi.qual,)) for c in callees):
+                    continue
+            return False
+        return True
+    n_exit = 0
+    for q, fi in sorted(repo.functions.items()):
+        if fi.node.name in ("__exit__", "__aexit__") and fi.cls:
+            n_exit += 1
+            ok = returns_nothing(fi)
+            chk.ob("R01.10", f"{q}:returns-nothing", ok, fi.where,
+                   f"{q} returns nothing: an exception raised by the instrumented function (or inside an overlay's block) propagates" if ok else
+                   f"{q} may return a truthy value ({[norm(r.value) for r in returns_of(fi.node) if r.value is not None]}): the exception in flight is suppressed and the call returns None instead of raising")
+    chk.count("context managers (__exit__)", n_exit)
     # ------------------------------------------------------------------ R01.9
     from .. import pybinding
     from ..evc import Collector
